@@ -310,7 +310,8 @@ def run_case(binary, fl, case, scn_lines):
         if case["buffer"] is not None:
             env["YGM_COMM_BUFFER_SIZE_KB"] = case["buffer"]
         return C.run_sim(binary, [fl.what, fl.kinds, p], nodes=case["nodes"], ppn=case["ppn"], env=env,
-                         sim_seed=case["sim_seed"], policy=case["policy"], want_log=False, timeout=case.get("timeout", 40))
+                         sim_seed=case["sim_seed"], policy=case["policy"], eager_pct=case.get("eager", 50), want_log=False,
+                         timeout=case.get("timeout", 40))
     finally:
         shutil.rmtree(d, ignore_errors=True)
 
@@ -672,15 +673,16 @@ MapFlavour.is_consume_cb = lambda self, cb: False
 def make_cases(flavours, tier, seed):
     rnd = random.Random(seed * 7919 + 11)
     cases = []
-    n1 = 2 if tier == "quick" else 6
+    n1 = 4 if tier == "quick" else 40
     # (a) one rank: every flavour x buffer
     for fl in flavours:
         for buf in BUFFERS:
             for j in range(n1):
                 cases.append({"fl": fl, "nodes": 1, "ppn": 1, "routing": rnd.choice(ROUTINGS), "buffer": buf, "policy": rnd.choice(POLICIES),
-                              "sim_seed": rnd.randrange(1, 1 << 30), "gen_seed": rnd.randrange(1 << 30), "blocks": 5 if tier == "quick" else 8})
+                              "sim_seed": rnd.randrange(1, 1 << 30), "gen_seed": rnd.randrange(1 << 30), "blocks": 5 if tier == "quick" else 8,
+                              "eager": rnd.choice([0, 50, 100]), "scale": 1.0 if tier == "quick" else rnd.choice([1.0, 2.0])})
     # (b) distributed: rotate through layouts x routings x buffers x policies
-    nd = (14 if tier == "quick" else 80) * len(flavours)
+    nd = (40 if tier == "quick" else 1200) * len(flavours)
     off = rnd.randrange(1000)
     for i in range(nd):
         fl = flavours[i % len(flavours)]
@@ -688,7 +690,8 @@ def make_cases(flavours, tier, seed):
         nodes, ppn = LAYOUTS[j % len(LAYOUTS)]
         cases.append({"fl": fl, "nodes": nodes, "ppn": ppn, "routing": ROUTINGS[(j // 2) % 3], "buffer": BUFFERS[(j // 3 + j) % 3],
                       "policy": POLICIES[(j // 5 + j) % 5], "sim_seed": rnd.randrange(1, 1 << 30), "gen_seed": rnd.randrange(1 << 30),
-                      "blocks": 4 if tier == "quick" else 7})
+                      "blocks": 4 if tier == "quick" else 7, "eager": rnd.choice([0, 50, 100]),
+                      "scale": 1.0 if tier == "quick" else rnd.choice([1.0, 1.0, 3.0])})
     return cases
 
 
